@@ -56,6 +56,11 @@ def _inst_C05(profile):
     for c in ("dna", "iupac", "mdna", "miupac", "degen"):
         obs.append({"name": "complement letters of %s" % c, "expr": "comp_letters_check %s" % c,
                     "lift": ["C05.C05_complement_letters %s @INST" % c]})
+    # the literal macros carry their own copy of the DNA / IUPAC alphabets
+    for c, t in (("dna", "macro_dna"), ("iupac", "macro_iupac")):
+        obs.append({"name": "the %s! macro's alphabet is the codec's: every byte it accepts decodes to the same "
+                            "symbol at run time" % c,
+                    "expr": "macro_agreesb %s %s" % (c, t)})
     ds = write_decls()
     for c, d in ds.items():
         if d is None:
@@ -265,7 +270,7 @@ C05_THEOREMS = ["C05_tables_consistent", "C05_dna_alphabet", "C05_iupac_nucleoti
 
 REGISTRY = {
     "C05": dict(theorems=C05_THEOREMS, instances=inst_C05, exhaustive=True,
-                imports=["Bits", "Codec", "Tables", "Spec", "Derive", "C05Check"],
+                imports=["Bits", "Codec", "Tables", "Spec", "Derive", "C05Check", "Macro"],
                 extra_imports=["From BioSeqProps Require Import C05.", "From BioSeqGen Require Import Decls."],
                 rule="complete enumeration inside the kernel: every obligation is a boolean sweep over all 256 byte "
                      "values (as ASCII input and as bit pattern) of one codec's regenerated tables, for the dev and "
